@@ -107,7 +107,13 @@ type sampleExtractor interface {
 
 func buildSampleExtractor(expr *logql.RangeAggregationExpr) (sampleExtractor, error) {
 	qrange := expr.Range
-	switch expr.Op {
+	op := expr.Op
+	if op == logql.RangeOpRate && qrange.Unwrap != nil {
+		// Rate of unwrapped values is a sum of values per second,
+		// so extract values the same way as for sum_over_time.
+		op = logql.RangeOpSum
+	}
+	switch op {
 	case logql.RangeOpCount, logql.RangeOpRate, logql.RangeOpAbsent:
 		return &lineCounterExtractor{}, nil
 	case logql.RangeOpBytes, logql.RangeOpBytesRate:
